@@ -418,6 +418,10 @@ def check_depth_containers(report: Report, repo: Repo, rule: str) -> None:
             "a frozen layer among three": ([layer("a"), layer("b", frozen=True), layer("c")], 3, None),
             "an untagged frozen parameter": ([layer("a"), layer("plain", tagged=False, frozen=True)], None, "ValueError"),
         }
+        stamped = [layer("a"), layer("b")]
+        for l_ in stamped:
+            l_.attrs["_p"].attrs["mup_scaling_depth"] = 4
+        scen["two layers of an existing 4-layer stack wrapped again"] = (stamped, None, "keep")
         if kind == "ModuleList":
             from ..values import OneShot
 
@@ -437,6 +441,12 @@ def check_depth_containers(report: Report, repo: Repo, rule: str) -> None:
                 report.add(rule, cons, None, f"{sname}: outside fragment: {ex}")
                 continue
             raised = [e["exc"] for e in it.events if e.kind == "raise"]
+            if want_exc == "keep":
+                # layers that already belong to a deeper stack (e.g. a slice `stack[:2]` re-wraps them): the depth
+                # recorded for that stack must survive -- the container refuses them or leaves the depth alone
+                depths_ = [m.attrs["_p"].attrs.get("mup_scaling_depth") for m in mods]
+                report.add(rule, f"{cons}::restamp", bool(raised) or all(d == 4 for d in depths_), f"{sname}: a depth already recorded (4) is never overwritten by a second, shallower container", {"raised": raised, "depths": depths_}, "raises, or depths stay 4")
+                continue
             if want_exc:
                 report.add(rule, f"{cons}::untagged", raised == [want_exc], f"{sname}: an untagged parameter inside a depth container is refused with ValueError", raised, [want_exc])
                 continue
